@@ -321,12 +321,26 @@ func runC17(rec *kit.Recorder, active map[string]bool, c c17Case) error {
 	var ds []*kit.Discrepancy
 	nt := false
 	cur := base
+	// Non-triviality is a property of the whole history (set -> reload ->
+	// unset of a repository a generated query matches): the judged operations
+	// are counted when the case ends.
+	type pending struct {
+		key    string
+		labels []string
+	}
+	var evals []pending
+	eval := func(key string, labels ...string) { evals = append(evals, pending{key, labels}) }
+	defer func() {
+		for _, e := range evals {
+			rec.Eval(e.key, nt, e.labels...)
+		}
+	}()
 	for i, op := range c.Ops {
 		labels := []string{"op:" + op.Kind}
 		key := fmt.Sprintf("%s|%d", ckey, i)
 		if op.Kind == "reload" {
 			obs, err := c17Observe(shard, qs)
-			rec.Eval(key, nt, labels...)
+			eval(key, labels...)
 			if err != nil {
 				return kit.Fail("reload", "operation %d: %v", i, err)
 			}
@@ -395,7 +409,7 @@ func runC17(rec *kit.Recorder, active map[string]bool, c c17Case) error {
 
 		obs, err := c17Observe(shard, qs)
 		if err != nil {
-			rec.Eval(key, nt, labels...)
+			eval(key, labels...)
 			return kit.Fail("reload", "after operation %d %+v (returned %v): the shard does not load any more: %v", i, op, opErr, err)
 		}
 		desc := fmt.Sprintf("operation %d %s(%d)", i, op.Kind, op.ID)
@@ -404,13 +418,13 @@ func runC17(rec *kit.Recorder, active map[string]bool, c c17Case) error {
 		}
 		switch {
 		case opErr != nil && !injected:
-			rec.Eval(key, nt, labels...)
+			eval(key, labels...)
 			return kit.Fail("unexpected-error", "%s returned %v without any injected fault", desc, opErr)
 		case opErr != nil:
 			// reported failure: nothing may have changed
 			labels = append(labels, "result:error")
 			if obs.key() != cur.key() {
-				rec.Eval(key, nt, labels...)
+				eval(key, labels...)
 				return kit.Fail("failed-op-changed-state", "%s returned %v but changed what the shard shows: %s", desc, opErr, c17Diff(qs, cur, obs))
 			}
 		default:
@@ -423,10 +437,10 @@ func runC17(rec *kit.Recorder, active map[string]bool, c c17Case) error {
 					ds = append(ds, kit.FailKnown("C17-swallowed-rename-error", "success-without-effect",
 						"%s returned nil, but after reloading the shard nothing has changed: %s", desc, d))
 					// the model follows the disk: the operation did not happen
-					rec.Eval(key, nt, labels...)
+					eval(key, labels...)
 					continue
 				}
-				rec.Eval(key, nt, labels...)
+				eval(key, labels...)
 				kind := "effect-differs"
 				if !changes {
 					kind = "repeat-not-noop"
@@ -444,7 +458,7 @@ func runC17(rec *kit.Recorder, active map[string]bool, c c17Case) error {
 			dead = after
 			cur = obs
 		}
-		rec.Eval(key, nt, labels...)
+		eval(key, labels...)
 	}
 	rec.Sample(c, nt)
 	return faultsConclude(rec, active, c, ds)
@@ -472,7 +486,7 @@ func c17FileTombstones(c *c17Case) map[string][]string {
 func TestVerif_C17(t *testing.T) {
 	faultsSetup()
 	rec := kit.Open(t, "C17",
-		"rapid-generated compound shards (1-4 repositories, file tombstones, skipped documents) x 3-5 query trees + Const(true) x histories of 2-16 SetTombstone/UnsetTombstone/reload operations over member and foreign repository ids, 30% of the calls with the sidecar's temp-file creation or rename failing (EIO). One evaluation = one operation judged after a reload (fresh open of the shard). Non-trivial = the history so far contains an effective set and a later effective unset of a repository in which a generated query has results (the baseline came back); distinct by hash of (case, operation index).",
+		"rapid-generated compound shards (1-4 repositories, file tombstones, skipped documents) x 3-5 query trees + Const(true) x histories of 2-16 SetTombstone/UnsetTombstone/reload operations over member and foreign repository ids, 30% of the calls with the sidecar's temp-file creation or rename failing (EIO). One evaluation = one operation judged after a reload (fresh open of the shard). Non-trivial = the history contains an effective set and a later effective unset of a repository in which a generated query has results (the baseline came back); distinct by hash of (case, operation index).",
 		"expected results = baseline results on the shard with nothing tombstoned, minus the repositories in the model set (metamorphic); the baseline of Const(true) itself is checked against the corpus model (live documents minus file-tombstoned paths)",
 		"a reload is a fresh os.Open + index.NewIndexFile + index.NewSearcher, and index.ReadMetadataPathAlive",
 		"a call that reports an error must leave the visible state unchanged; foreign ids may be accepted or rejected but change nothing",
